@@ -9,8 +9,10 @@ Driver glue for C56.  Wire format (no spaces inside a token):
   actions `L T<kind> T<prep> T<field> <inner event D…> e` (see TwistedModel/Log/FlatReent.lean); the event is run with
   the world-threaded machinery (`flattenEventW` …, every KeyFlattener an allocation) at hook nesting level 6
   `C56 all <val>`    the event (a `D` value, `log_format` included) →
-        `orig=<res>|flat=<res>|flat2=<res>|json=<res>|keys=<text>*|jev=<val or !Err>`
-        res = `ok:`text or `!`ErrorClass; keys = the keys of log_flattened after flattenEvent, in order
+        `orig=<res>|flat=<res>|flat2=<res>|json=<res>|keys=<text>*|jev=<val or !Err>|json2=<res>|jflat=<res>|fj=<res>`
+        res = `ok:`text or `!`ErrorClass; keys = the keys of log_flattened after flattenEvent, in order;
+        json2 / jflat = the JSON-loaded event serialized+loaded again / flattened again, then formatted;
+        fj = the (twice) flattened event serialized, loaded and formatted
   `C56 parse <text>` → the items `string.Formatter.parse` yields: `L<text>` / `F<lit><name><spec><conv or ->` … then `ok`/`!ValueError`
 -/
 namespace Twisted.Drv.C56
@@ -109,17 +111,43 @@ def handle (args : List String) : String :=
         | .ok e => formatEventW OW e flw.2
         | .error e => (.error e, flw.2)
       let flat := flatw.1
-      let flat2w : Except Err Text × World := match fl with
-        | .ok e => (match flattenEventW OW e flatw.2 with
-          | (.ok e2, w) => formatEventW OW e2 w
-          | (.error x, w) => (.error x, w))
-        | .error e => (.error e, flatw.2)
+      let fl2w : Except Err Dict × World := match fl with
+        | .ok e => flattenEventW OW e flatw.2
+        | .error x => (.error x, flatw.2)
+      let flat2w : Except Err Text × World := match fl2w.1 with
+        | .ok e2 => formatEventW OW e2 fl2w.2
+        | .error x => (.error x, fl2w.2)
       let flat2 := flat2w.1
-      let jevw := jsonRoundTripW OW ev flat2w.2
+      -- history: the event flattened earlier is serialized and loaded (`fj`)
+      let fjw : Except Err Text × World := match fl with
+        | .error x => (.error x, flat2w.2)
+        | .ok e =>
+          let e2 := match fl2w.1 with | .ok e2 => e2 | .error _ => e
+          let r := jsonRoundTripW OW e2 flat2w.2
+          match r.1 with
+          | .ok e3 => formatEventW OW e3 r.2
+          | .error x => (.error x, r.2)
+      let jevw := jsonRoundTripW OW ev fjw.2
       let jev := jevw.1
-      let json := match jev with
-        | .ok e => (formatEventW OW e jevw.2).1
-        | .error e => .error e
+      let jsonw : Except Err Text × World := match jev with
+        | .ok e => formatEventW OW e jevw.2
+        | .error e => (.error e, jevw.2)
+      let json := jsonw.1
+      -- history: the loaded event is serialized and loaded once more (`json2`) / flattened again (`jflat`)
+      let json2w : Except Err Text × World := match jev with
+        | .error x => (.error x, jsonw.2)
+        | .ok e =>
+          let r := jsonRoundTripW OW e jsonw.2
+          match r.1 with
+          | .ok e5 => formatEventW OW e5 r.2
+          | .error x => (.error x, r.2)
+      let jflatw : Except Err Text × World := match jev with
+        | .error x => (.error x, json2w.2)
+        | .ok e =>
+          let r := flattenEventW OW e json2w.2
+          match r.1 with
+          | .ok e6 => formatEventW OW e6 r.2
+          | .error x => (.error x, r.2)
       let keys := match fl with
         | .ok e => (match lookup e kFlattened with
           | some (Val.dict fs) => String.join (fs.map fun (k, _) => encText k)
@@ -127,7 +155,8 @@ def handle (args : List String) : String :=
         | .error _ => "-"
       let out := "orig=" ++ showRes orig ++ "|flat=" ++ showRes flat ++ "|flat2=" ++ showRes flat2 ++
         "|json=" ++ showRes json ++ "|keys=" ++ keys ++ "|jev=" ++
-        (match jev with | .ok e => encVal (Val.dict e) | .error e => errName e)
+        (match jev with | .ok e => encVal (Val.dict e) | .error e => errName e) ++
+        "|json2=" ++ showRes json2w.1 ++ "|jflat=" ++ showRes jflatw.1 ++ "|fj=" ++ showRes fjw.1
       if (out.splitOn "bad-op").length > 1 then "bad-op" else out
     | _ => "bad-op"
   | ["parse", t] =>
